@@ -125,5 +125,10 @@ for _p in ("C05", "C06"):
     META[_p]["engine"] = "A-virtual-clock + R-real-time"
     META[_p]["technique"] = META[_p]["technique"] + "; plus property-based testing of generated real-time scripts (millisecond flags, the server's own timer goroutines) with stamped replies: never early, late only when the measured scheduling delay rules the machine out"
     META[_p]["level_text"] = META[_p]["level_text"] + " Engine R adds hundreds (quick) to thousands (thorough) of real-time cases of a few seconds each; schedules are real, so a failure is reported only if it recurs on re-execution."
+ENGINES["T-text-kv"] = {"path": "harness/server/c15t_engine_test.go, c15t_model_test.go, c15t_gen_test.go, c15t_script_test.go", "props": ["C15"], "kind": "model-based PBT (rapid): generated Redis-style command sequences through the real text front end under a virtual clock vs. a reference key-value store kept as a set of hypotheses"}
+META["C15"] = dict(META["C15"])
+META["C15"]["engine"] = "A-virtual-clock + V-value-pure + T-text-kv"
+META["C15"]["technique"] = "differential property testing (rapid) against a sequential value interpreter, pure and through generated lock histories; model-based property testing of the Redis-style text commands against a reference key-value store"
+META["C15"]["level_text"] = META["C15"]["level_text"].replace(" The Redis-style text commands of the statement are not yet covered by this check.", "") + " (c) generated Redis-style command sequences over a small key set through the real text front end, every reply and a full read-back compared with a reference key-value store (engine T)."
 _NOT_BUILT = "check not built yet in this session (planned in DESIGN.md); not claimed rather than faked"
 NOT_APPLICABLE = {f"C{i:02d}": _NOT_BUILT for i in range(1, 21)}
